@@ -25,7 +25,7 @@ where
 
     #[cfg_attr(feature = "inline-more", inline)]
     fn try_get_or_intern_static(&mut self, val: &'static str) -> LassoResult<K> {
-        self.try_get_or_intern(val)
+        (**self).try_get_or_intern_static(val)
     }
 }
 
